@@ -1,4 +1,6 @@
 import Sonic.Go.Prelude
+import Sonic.Props.C08
 import Sonic.Props.C09
 import Sonic.Props.C10
 import Sonic.Props.C11
+import Sonic.Props.C15
